@@ -89,6 +89,16 @@ CBW_SITES = [FLAGS_INIT, FLAGS_IMM_CLEAR, CBW_RO_CLEAR] + [
     "and not can_be_writeable:"]
 
 
+# ---- C16.16: a second entry into the kind dispatch (helper / recursive call) after a prefix was found
+FS_UNKNOWN_ELSE = "        else:\n            return UnknownURI(u)\n\n        # We fell through because a constraint was not met.\n"
+FS_UNKNOWN_TAIL = "\n        # We fell through because a constraint was not met.\n"
+URI_IMPORTS = "import re\nfrom typing import Type\n"
+URI_IMPORTS_UNQUOTE = "import re\nfrom typing import Type\nfrom urllib.parse import unquote_to_bytes\n"
+FS_IS_URI = "def is_uri(s):\n    try:\n        from_string(s, deep_immutable=False)"
+NM_IMPORT_UNKNOWN = "from allmydata.unknown import UnknownNode\n"
+NM_CREATE_DEF = "    def create_from_cap(self, writecap, readcap=None, deep_immutable=False, name=u\"<unknown name>\"):\n"
+
+
 def _rename(mid, name, new, contexts, expect, extra=()):
     """Consistent rename of a local of uri.from_string: one edit per occurrence (each context is unique in the file)."""
     eds = [(U, c, c.replace(name, new)) for c in contexts]
@@ -334,6 +344,26 @@ MUTANTS = [
       "                self._node_cache[memokey] = node  # note: WeakValueDictionary\n"
       "                self._node_cache[memokey[:1] + bigcap.split(b\".\", 1)[-1]] = node\n", "C16.14"),
     M("cache-key-from-writecap-only", NM, NM_KEY, NM_KEY.replace("b\"M\" + bigcap", "b\"M\" + (writecap or b\"\")"), "C16.14"),
+    # C16.14, key made by a function of the package: the function is followed, a return that drops part of the string is lossy
+    M("cache-key-via-strip-prefix-for-ro", NM, NM_KEY,
+      "        memocap = strip_prefix_for_ro(bigcap, deep_immutable)\n" + NM_KEY.replace("+ bigcap", "+ memocap"), "C16.14",
+      edits=[(NM, NM_IMPORT_UNKNOWN, "from allmydata.unknown import UnknownNode, strip_prefix_for_ro\n")],
+      note="seeded C16-H: b'ro.<cap>' and b'<cap>' share one entry; a hit returns the writeable node without from_string's prefix check"),
+    M("cache-key-via-own-normalising-method", NM, NM_KEY, NM_KEY.replace("+ bigcap", "+ self._bare(bigcap)"), "C16.14",
+      edits=[(NM, NM_CREATE_DEF,
+              "    def _bare(self, cap):\n        if cap.startswith(uri.ALLEGED_READONLY_PREFIX):\n"
+              "            return cap[len(uri.ALLEGED_READONLY_PREFIX):]\n        return cap\n\n" + NM_CREATE_DEF)],
+      note="the same effect through a method of the node maker"),
+    M("cache-key-via-nested-helper-partition", NM, NM_KEY,
+      "        def keyof(tag, cap):\n            return tag + cap.rpartition(b\".\")[2]\n"
+      "        memokey = keyof(b\"I\" if deep_immutable else b\"M\", bigcap)\n", "C16.14"),
+    M("benign-cache-key-built-by-helper", NM, NM_KEY, "        memokey = self._memokey(deep_immutable, bigcap)\n", None,
+      edits=[(NM, NM_CREATE_DEF,
+              "    def _memokey(self, deep_immutable, cap):\n        tag = b\"I\" if deep_immutable else b\"M\"\n"
+              "        return tag + cap\n\n" + NM_CREATE_DEF)],
+      note="the key is still context tag + whole string, only built in a method"),
+    M("benign-cache-key-via-identity-function", NM, NM_KEY,
+      "        def same(cap):\n            if not cap:\n                return cap\n            return cap\n" + NM_KEY.replace("+ bigcap", "+ same(bigcap)"), None),
     M("benign-cache-key-ifexp-tag", NM, NM_KEY, "        memokey = (b\"I\" if deep_immutable else b\"M\") + bigcap\n", None),
     M("benign-cache-key-via-copy", NM, NM_KEY, "        capstr = bigcap\n" + NM_KEY.replace("+ bigcap", "+ capstr"), None),
     M("benign-cache-get-instead-of-try", NM,
@@ -398,6 +428,33 @@ MUTANTS = [
       "        s = s[len(ALLEGED_READONLY_PREFIX):]\n", "C16.13"),
     M("from-string-prefix-tuple-misses-imm", U, FS_PREFIX_BLOCK,
       fs_prefix_tuple(outer="(ALLEGED_READONLY_PREFIX,)"), "C16.5"),
+    # ---- C16.16 a helper / recursive call after a prefix was found is handed the string the prefix was found on
+    M("percent-decoded-retry-parses-cut-string", U, FS_UNKNOWN_ELSE,
+      "        else:\n            if b'%' in s:\n                unquoted = unquote_to_bytes(s)\n"
+      "                if unquoted != s and has_uri_prefix(unquoted):\n"
+      "                    return from_string(unquoted, deep_immutable=deep_immutable,\n                                       name=name)\n"
+      "            return UnknownURI(u)\n" + FS_UNKNOWN_TAIL, "C16.16",
+      edits=[(U, URI_IMPORTS, URI_IMPORTS_UNQUOTE)],
+      note="seeded C16-G: the retry re-parses s (prefix already cut) with only deep_immutable: b'ro.URI%3ASSK%3A..' comes back writeable"),
+    M("whitespace-retry-parses-cut-string", U, FS_UNKNOWN_ELSE,
+      "        else:\n            if s != s.strip():\n                return from_string(s.strip(), deep_immutable, name)\n"
+      "            return UnknownURI(u)\n" + FS_UNKNOWN_TAIL, "C16.16",
+      note="a different fallback with the same slip"),
+    M("retry-of-cut-string-through-helper", U, FS_UNKNOWN_ELSE,
+      "        else:\n            if b'%' in s:\n                return _retry_decoded(s, deep_immutable, name)\n"
+      "            return UnknownURI(u)\n" + FS_UNKNOWN_TAIL, "C16.16",
+      edits=[(U, URI_IMPORTS, URI_IMPORTS_UNQUOTE),
+             (U, FS_IS_URI, "def _retry_decoded(cap, deep_immutable, name):\n    decoded = unquote_to_bytes(cap)\n    if decoded == cap:\n"
+              "        return UnknownURI(cap)\n    return from_string(decoded, deep_immutable=deep_immutable, name=name)\n\n" + FS_IS_URI)],
+      note="the cut string leaves through a helper that re-enters from_string"),
+    M("benign-unknown-cap-built-by-helper", U, FS_UNKNOWN_ELSE,
+      "        else:\n            return _unknown_cap(u, deep_immutable, name)\n" + FS_UNKNOWN_TAIL, None,
+      edits=[(U, FS_IS_URI, "def _unknown_cap(u, deep_immutable, name):\n    return UnknownURI(u)\n\n" + FS_IS_URI)],
+      note="a helper reached after the prefix was found, handed the whole given string"),
+    M("benign-str-input-reparsed-recursively", U,
+      "    if isinstance(u, str):\n        u = u.encode(\"utf-8\")\n    if not isinstance(u, bytes):\n        raise TypeError(\"URI must be unicode string or bytes: %r\" % (u,))\n\n    # We allow and check",
+      "    if isinstance(u, str):\n        return from_string(u.encode(\"utf-8\"), deep_immutable, name)\n    if not isinstance(u, bytes):\n        raise TypeError(\"URI must be unicode string or bytes: %r\" % (u,))\n\n    # We allow and check",
+      None, note="a recursive entry before any prefix was examined"),
     # ---- vanished anchor
     M("vanish-node-cache", NM, "                self._node_cache[memokey] = node  # note: WeakValueDictionary\n", "                pass\n", "ANALYSIS-ERROR"),
     M("vanish-wrap-dirnode-cap", U, "def wrap_dirnode_cap(filecap):", "def wrap_dirnode_capX(filecap):", "ANALYSIS-ERROR"),
